@@ -4,6 +4,7 @@
 
 #include <functional>
 #include <stdexcept>
+#include <string>
 
 #include "Strings.hh"
 
@@ -13,7 +14,9 @@ class expectation_failed : public std::logic_error {
 public:
   expectation_failed(const char* msg, const char* file, uint64_t line);
 
-  const char* msg;
+  // This is an owned copy: callers (e.g. expect_raises_fn) may pass a pointer
+  // into a temporary string, which is destroyed while the exception propagates
+  std::string msg;
   const char* file;
   uint64_t line;
 };
